@@ -104,8 +104,15 @@ class Field(mixin.FieldDomain, abstract.PropertiesData):
             except AttributeError:
                 data_axes = None
 
-            if constructs is not None and (copy or not _use_data):
-                constructs = constructs.copy(data=_use_data)
+            if constructs is not None:
+                if copy or not _use_data:
+                    constructs = constructs.copy(data=_use_data)
+                else:
+                    # Share the metadata constructs, but not the
+                    # container that holds them: the container
+                    # records which domain axes are spanned by the
+                    # data of its one parent field
+                    constructs = constructs.shallow_copy()
         else:
             constructs = None
             data = None
